@@ -368,3 +368,39 @@ func IsClosed(st content.ReadOnlyStorage, d *DAG) string {
 	}
 	return ""
 }
+
+// ---- destination double that can mount (registry.Mounter)
+
+// MountDst is a destination that implements registry.Mounter. For every blob and candidate
+// repository it answers "mounted" (the content appears without any source read) or "cannot
+// mount here" (it calls getContent, as a registry answering 202 does); the answer is an input
+// choice of the execution.
+type MountDst struct {
+	Dst
+	Mounted map[int]int
+	Events  *[]string
+}
+
+func (m *MountDst) Mount(ctx context.Context, desc ocispec.Descriptor, fromRepo string, getContent func() (io.ReadCloser, error)) error {
+	id := m.W.D.Find(desc)
+	nm := m.W.D.Nodes[id].Name
+	if vs.ChooseAt(2, vs.KInput, "mount("+nm+","+fromRepo+")") == 0 {
+		// mounted: the registry links the blob, nothing is read from the source
+		m.W.Do(func() {
+			*m.Events = append(*m.Events, "mounted-by-registry:"+nm+":"+fromRepo)
+			m.Mounted[id]++
+		})
+		return m.Inner.Push(ctx, desc, bytes.NewReader(m.W.D.Nodes[id].Bytes))
+	}
+	rc, err := getContent()
+	if err != nil {
+		return err
+	}
+	defer rc.Close()
+	m.W.Do(func() { *m.Events = append(*m.Events, "fallback:"+nm+":"+fromRepo) })
+	return m.Dst.Push(ctx, desc, rc)
+}
+
+// MountCandidates are the candidate lists MountFrom hands out in the mount scenarios: none, one,
+// two, the same repository twice, and a list ending in a blank name.
+var MountCandidates = [][]string{nil, {"repo/a"}, {"repo/a", "repo/b"}, {"repo/a", "repo/a"}, {"repo/a", ""}}
